@@ -132,7 +132,7 @@ func (p Plugin) startsUp() bool {
 // Entry is something else in the plugin directory: a non-executable file or a directory.
 type Entry struct {
 	Name    string `json:"name"`
-	Kind    string `json:"kind"`              // file | dir
+	Kind    string `json:"kind"`              // file | dir | dirlink | filelink | fifo | sock | fifolink | socklink | devlink (the last five: not regular files, with execute bits)
 	Mode    Mode   `json:"mode"`              // files: no execute bit
 	Content string `json:"content,omitempty"` // files: text | empty | probe (a copy of the probe binary)
 	Inner   string `json:"inner,omitempty"`   // dirs: name of an executable probe placed inside
@@ -192,6 +192,11 @@ type C18Case struct {
 	// immediately, "1ms", "20ms", "500ms" that much later — in these cases nothing is
 	// waited for or looked at between the last request and Stop.
 	StopAfter string `json:"stop_after,omitempty"`
+	// StartThread is where the runtime calls Start from: "" an ordinary goroutine;
+	// "locked_thread_exits" a goroutine that locked itself to its OS thread and ends right
+	// after Start returned without unlocking (Go then terminates that thread); the first
+	// request follows 300 ms later.
+	StartThread string `json:"start_thread,omitempty"`
 	// PluginPath / ConfPath: the shape of the path handed to WithPluginPath /
 	// WithPluginConfigPath: "" the directory itself; symlink (a symbolic link to it);
 	// symlink2 (a link to a link); symparent (a symbolic link among the parent components);
@@ -203,6 +208,14 @@ type C18Case struct {
 
 // nBadMasks is the number of invalid event masks the probe knows (cmd/probeplugin badMasks).
 const nBadMasks = 7
+
+func isSpecialKind(k string) bool {
+	switch k {
+	case "fifo", "sock", "fifolink", "socklink", "devlink":
+		return true
+	}
+	return false
+}
 
 var pathShapes = []string{"", "", "", "symlink", "symlink2", "symparent", "slash", "dots", "relative"}
 
@@ -457,10 +470,13 @@ func genC18(t *rapid.T) C18Case {
 		} else {
 			e.Name = rapid.SampledFrom(malformedNames).Draw(t, "oname")
 		}
-		if wellFormed && rapid.IntRange(0, 4).Draw(t, "islink") == 2 {
+		if wellFormed && rapid.IntRange(0, 2).Draw(t, "islink") == 1 {
 			// a symbolic link to a directory or to a non-executable file, named like a plugin
-			e.Kind = rapid.SampledFrom([]string{"dirlink", "filelink"}).Draw(t, "linkkind")
+			e.Kind = rapid.SampledFrom([]string{"dirlink", "filelink", "fifo", "fifo", "sock", "fifolink", "socklink", "devlink"}).Draw(t, "linkkind")
 			e.Mode = 0o644
+			if isSpecialKind(e.Kind) {
+				e.Mode = 0o755 // execute bits: only the file type keeps it from being a plugin
+			}
 		} else if rapid.IntRange(0, 2).Draw(t, "isdir") == 0 {
 			e.Kind = "dir"
 			e.Mode = rapid.SampledFrom([]Mode{0o755, 0o700, 0o711}).Draw(t, "dmode")
@@ -590,6 +606,7 @@ func genC18(t *rapid.T) C18Case {
 			}
 		}
 	}
+	c.StartThread = rapid.SampledFrom([]string{"", "", "", "", "locked_thread_exits", "", "", "", "", ""}).Draw(t, "start_thread")
 	c.SyncFn = rapid.SampledFrom([]string{"", "", "", "", "", "", "", "", "fail_before", "fail_after"}).Draw(t, "runtime_syncfn")
 	return c
 }
@@ -651,6 +668,13 @@ func validate(c C18Case) error {
 			if e.Inner != "" && strings.ContainsAny(e.Inner, "/\x00") {
 				return fmt.Errorf("bad inner name")
 			}
+		case "fifo", "sock", "fifolink", "socklink", "devlink":
+			if _, _, err := api.ParsePluginName(e.Name); err != nil {
+				return fmt.Errorf("entry %q: special files are placed with well-formed plugin names", e.Name)
+			}
+			if e.Mode&^0o777 != 0 {
+				return fmt.Errorf("entry %q: bad mode", e.Name)
+			}
 		case "dirlink", "filelink":
 			// nri looks at a symbolic link's own mode (always rwx): a link with a name that does
 			// not parse would abort Start like an executable with such a name (precondition)
@@ -706,6 +730,9 @@ func validate(c C18Case) error {
 	}
 	if !isPathShape(c.PluginPath) || !isPathShape(c.ConfPath) {
 		return fmt.Errorf("unknown path shape %q / %q", c.PluginPath, c.ConfPath)
+	}
+	if c.StartThread != "" && c.StartThread != "locked_thread_exits" {
+		return fmt.Errorf("unknown start_thread %q", c.StartThread)
 	}
 	if _, ok := stopDelays[c.StopAfter]; !ok {
 		return fmt.Errorf("unknown stop_after %q", c.StopAfter)
